@@ -143,6 +143,10 @@ impl Distribution<TransactionId> for StandardUniform {
 impl Default for TransactionId {
     /// Creates a cryptographically random transaction ID chosen from the interval 0 .. 2**96-1.
     fn default() -> Self {
+        #[cfg(feature = "verif")]
+        if let Some(id) = crate::verif::next_transaction_id() {
+            return id;
+        }
         let mut rng = rand::rng();
         rng.random()
     }
